@@ -25,6 +25,8 @@ CONSTANTS
   FailSets <- MCFailNone
   Jumps <- MCJumpNone
   MaxJumps = 0
+  ProgressModes = {"seq"}
+  MaxStale = 0
   Bounded = TRUE
   Mut = "none"
 PROPERTY ResultDelivered
